@@ -128,6 +128,24 @@ def evaluate(cfg):
         else:
             o.raises("direct back-end must reject order %s" % (order,),
                      lambda: evaluate_deriv_basis(g, pts, oa, deriv_type="direct", **kw), key="direct-order>2-not-rejected")
+    # equivalent representations of the same points: Fortran-ordered copy, strided view, read-only array; and a
+    # set of integer-valued points given with integer dtype
+    reps = {"F-ordered": np.asfortranarray(pts), "strided view": np.repeat(pts, 2, axis=0)[::2],
+            "column-strided view": np.hstack([pts, pts])[:, :3], "read-only": pts.copy()}
+    reps["read-only"].setflags(write=False)
+    for od in ((0, 0, 0), (1, 2, 0), (0, 0, 3)):
+        base = evaluate_deriv_basis(g, pts, np.array(od), **kw)
+        for nm, arr in reps.items():
+            o.same("points given as %s, order %s" % (nm, od), evaluate_deriv_basis(g, arr, np.array(od), **kw), base,
+                   key="points-representation")
+            o.call()
+    ipts = np.array([[0, 1, -1], [2, 0, 1], [1, 1, 0], [0, 0, 0]])
+    o.same("integer-dtype points == the same points as floats", evaluate_basis(g, ipts, **kw),
+           evaluate_basis(g, ipts.astype(float), **kw), key="points-int-dtype")
+    o.same("orders given as a non-contiguous / int32 array",
+           evaluate_deriv_basis(g, pts, np.array([[1, 9], [0, 9], [2, 9]])[:, 0], **kw),
+           evaluate_deriv_basis(g, pts, np.array([1, 0, 2]), **kw), key="orders-representation")
+    o.call(4)
     o.raises("unknown back-end name must be rejected",
              lambda: evaluate_deriv_basis(g, pts, np.array([1, 0, 0]), deriv_type="hermite", **kw),
              key="unknown-backend-not-rejected")
